@@ -381,6 +381,68 @@ def v_cons_edgelist_int(spec, rng):      # node mode: a constraint given as a li
     spec["cons"] = [[(u, v), 5]] + [c for c in spec["cons"] if c and isinstance(c[0], tuple)]
     return True
 
+def _numeric_names(spec, rng):
+    """rename every node to a numeric string ("1", "2", ... or "1.0", ...): values such as 1 or 1.0 then become near misses"""
+    style = rng.choice(["int", "float"])
+    for j, old in enumerate(list(spec["nodes"])):
+        if isinstance(old, str):
+            _rename(spec, old, "#%d" % j)
+    for j, old in enumerate(list(spec["nodes"])):
+        if isinstance(old, str) and old.startswith("#"):
+            _rename(spec, old, str(j + 1) if style == "int" else "%d.0" % (j + 1))
+    return style
+def _near(name, style, rng):
+    """a value that is NOT a node but turns into the node name under str()"""
+    return int(name) if style == "int" else float(name)
+def v_start_nearmiss(spec, rng):
+    style = _numeric_names(spec, rng)
+    spec["starts"] = spec["starts"] + [_near(rng.choice([x for x in spec["nodes"] if isinstance(x, str)]), style, rng)]; return True
+def v_end_nearmiss(spec, rng):
+    style = _numeric_names(spec, rng)
+    spec["ends"] = spec["ends"] + [_near(rng.choice([x for x in spec["nodes"] if isinstance(x, str)]), style, rng)]; return True
+def v_cons_nearmiss(spec, rng):
+    """constraint elements that are existing nodes / edges only after str(): node 1 for "1", edge (1, 2) for ("1", "2")"""
+    style = _numeric_names(spec, rng)
+    (u, v, _) = rng.choice(spec["edges"])
+    if spec["origin"] == "node":
+        node_lists = (not spec["cons"]) or (len(spec["cons"][0]) > 0 and isinstance(spec["cons"][0][0], str))
+        item = _near(u, style, rng) if node_lists else (_near(u, style, rng), _near(v, style, rng))
+    else:
+        item = (_near(u, style, rng), _near(v, style, rng))
+    spec["cons"] = spec["cons"] + [[item]]; return True
+def v_ign_nearmiss(spec, rng):
+    if spec["origin"] != "node": return False       # edge mode: ignoring an absent edge is harmless and documented as such
+    style = _numeric_names(spec, rng)
+    spec["ign"] = spec["ign"] + [_near(rng.choice([x for x in spec["nodes"] if isinstance(x, str)]), style, rng)]; return True
+def v_cons_mixed_item(spec, rng):
+    """node mode: a node-type constraint (the type is decided by the first element) that contains an EXISTING edge tuple;
+    edge mode: an edge-type constraint that contains an existing node name"""
+    (u, v, _) = rng.choice(spec["edges"])
+    if not (isinstance(u, str) and isinstance(v, str)): return False
+    if spec["origin"] == "node":
+        spec["cons"] = [[u, (u, v), v]] + [c for c in spec["cons"] if c and isinstance(c[0], str)]
+    else:
+        spec["cons"] = [[(u, v), rng.choice([u, v])]] + spec["cons"]
+    return True
+def v_cons_mixed_lists(spec, rng):
+    """node mode: a node-type constraint first, then a constraint made of existing edges (and the other way round)"""
+    if spec["origin"] != "node": return False
+    (u, v, _) = rng.choice(spec["edges"])
+    if not (isinstance(u, str) and isinstance(v, str)): return False
+    if rng.random() < 0.6:
+        spec["cons"] = [[u, v], [(u, v)]]
+    else:
+        spec["cons"] = [[(u, v)], [u, v]]
+    return True
+def v_cons_item_list(spec, rng):
+    """an element given as a list instead of a tuple / a name"""
+    (u, v, _) = rng.choice(spec["edges"])
+    if spec["origin"] == "node" and (not spec["cons"] or (len(spec["cons"][0]) and isinstance(spec["cons"][0][0], str))):
+        spec["cons"] = spec["cons"] + [[u, [u, v]]]
+    else:
+        spec["cons"] = spec["cons"] + [[[u, v]]]
+    return True
+
 def v_cov0(spec, rng):   spec["cov"] = 0; return True
 def v_covneg(spec, rng): spec["cov"] = -0.5; return True
 def v_covbig(spec, rng): spec["cov"] = 1.5; return True
@@ -466,7 +528,9 @@ def v_ign_absent_node(spec, rng):
     if spec["origin"] != "node": return False
     spec["ign"] = spec["ign"] + ["zz_absent"]; return True
 
-VIOL = {"missing_with_ignpct": v_missing_with_ignpct, "missing_with_trustpct": v_missing_with_trustpct,
+VIOL = {"start_nearmiss": v_start_nearmiss, "end_nearmiss": v_end_nearmiss, "cons_nearmiss": v_cons_nearmiss,
+        "ign_nearmiss": v_ign_nearmiss, "cons_mixed_item": v_cons_mixed_item, "cons_mixed_lists": v_cons_mixed_lists,
+        "cons_item_list": v_cons_item_list, "missing_with_ignpct": v_missing_with_ignpct, "missing_with_trustpct": v_missing_with_trustpct,
         "neg_with_trustpct": v_neg_with_trustpct, "selfloop": v_selfloop, "ignpct_bad": v_ignpct_bad, "ignpct_with_ign": v_ignpct_with_ign, "trustpct_bad": v_trustpct_bad,
         "cov0_with_len": v_cov0_with_len, "covneg_with_len": v_covneg_with_len, "covbig_with_len": v_covbig_with_len,
         "covlen0_nocons": v_covlen0_nocons, "covlen_big_nocons": v_covlen_big_nocons, "covlen0": v_covlen0, "covlen_big": v_covlen_big, "covlen_no_attr": v_covlen_no_attr, "covlen_and_cov": v_covlen_and_cov,
@@ -488,7 +552,8 @@ def violations_for(cls):
     if cls in IS_CYC: vs += ["nosource", "nosink"]
     if cls in HAS_WEIGHTS: vs += ["neg", "missing"]
     if cls in IS_FD: vs.append("noncons")
-    if cls in HAS_CONS: vs += ["cons_absent", "cons_tuple", "cons_empty", "cons_item3", "cons_itemint", "cons_edgelist_int", "cov0", "covneg", "covbig"]
+    if cls in HAS_CONS: vs += ["cons_absent", "cons_tuple", "cons_empty", "cons_item3", "cons_itemint", "cons_edgelist_int", "cons_mixed_item", "cons_mixed_lists",
+                                "cons_item_list", "cons_nearmiss", "cov0", "covneg", "covbig"]
     if cls in DAG_CLASSES: vs += ["cov0_with_len", "covneg_with_len", "covbig_with_len", "covlen0", "covlen_big", "covlen_no_attr", "covlen_and_cov",
                                   "covlen0_nocons", "covlen_big_nocons"]
     if cls in HAS_K: vs += ["k0", "kneg", "kfloat", "kfloatint", "kbool", "knone", "kstr"]
@@ -496,7 +561,8 @@ def violations_for(cls):
     if cls == "kFlowDecomp": vs.append("k0_greedy_off")
     if cls in HAS_WTYPE: vs.append("wtype")
     if cls in HAS_ORIGIN: vs += ["origin", "ign_malformed", "ign_absent_node"]
-    if cls in HAS_STARTS: vs += ["start", "end"]
+    if cls in HAS_STARTS: vs += ["start", "end", "start_nearmiss", "end_nearmiss"]
+    if cls in HAS_ORIGIN: vs.append("ign_nearmiss")
     return vs
 
 
